@@ -4,10 +4,10 @@ set -e
 cd "$(dirname "$0")"
 export GOFLAGS=-mod=mod GOPROXY=off GOSUMDB=off GOTOOLCHAIN=local
 mkdir -p build/facts build/audit build/run evidence replays
-(cd tools/factgen && go build -o factgen .)
-./tools/factgen/factgen -repo "${VERIF_REPO:-/repo}" -prop all -lean lean/EinoV/Gen -json build/facts
+(cd tools/factgen && go build -tags fg_all -o ../../build/factgen-all .)
+./build/factgen-all -repo "${VERIF_REPO:-/repo}" -prop all -lean lean/EinoV/Gen -json build/facts
 ./tools/genlake.py
 (cd lean && lake build)
 cp "${VERIF_REPO:-/repo}/go.sum" harness/go.sum
-(cd harness && go build -tags verif -o ../build/vh ./cmd/vh)
+(cd harness && go build -tags verif,vh_all -o ../build/vh-all ./cmd/vh)
 echo "setup ok"
